@@ -1,19 +1,61 @@
 (* C01 — predicate-free location paths select exactly the XPath 1.0 node-set.
-   Property theorems only.  Spec/Axes.v is the specification (the twelve axes as
-   relations on node addresses); Proofs/AxesSound.v proves every step function
-   of the engine model sound and complete against it. *)
-From Coq Require Import List.
-From XP Require Import Base Doc Ast Eval.
-From XP.Spec Require Import Axes.
-From XP.Proofs Require Import AxesSound.
+   Property theorems only.  Specification: Spec/Axes.v (the twelve axes as
+   relations on node addresses) and Spec/Paths.v ([path_den]: the denotation of
+   a list of (axis, node test) steps as a chain of axis relations).  Proofs:
+   Proofs/AxesSound.v, Proofs/PathSem.v, Proofs/BuildPath.v.
+   Residual hypotheses: [hash_ok hcode (all_nodes D)] (the 64-bit identity codes of
+   the document's nodes are pairwise different; used only by ancestor steps; see
+   Props/C11.v) and that the parse tree of the path text has the path shape
+   ([rpath_ast]; parser vs grammar is C10's correspondence). *)
+From Coq Require Import List String.
+From XP Require Import Base F64 Doc Ast Eval Parse Build Api.
+From XP.Spec Require Import Axes Paths.
+From XP.Proofs Require Import HashInj AxesSound PathSem BuildPath.
 
-(* one step over any of the twelve axes, any node test, any document, any
-   valid context node (element, attribute, text, comment, root): the engine's
-   enumeration contains exactly the nodes of the axis that pass the test *)
+(* one step over any of the twelve axes, any node test, any document, any valid
+   context node (element, attribute, text, comment, root) *)
 Theorem C01_step_sound_complete : forall D has_ns a t n m, valid D n = true ->
   (In m (step_of D has_ns a t n) <-> axis_rel D a n m /\ match_test D has_ns t m = true).
 Proof. exact step_of_spec. Qed.
 Print Assumptions C01_step_sound_complete.
+
+(* a chain of axis queries of ANY length from the context node: never fails,
+   and selects exactly the denotation (no node missing, none outside) *)
+Theorem C01_relative_path : forall D has_ns hcode rm rn rr steps c,
+  hash_ok hcode (all_nodes D) -> valid D c = true ->
+  exists l, sel D has_ns hcode rm rn rr (chain QContext steps) c = Val l /\
+    (forall n, In n (nodes_of l) -> valid D n = true) /\
+    (forall n, In n (nodes_of l) <-> path_den D has_ns steps c n).
+Proof. exact chain_den. Qed.
+Print Assumptions C01_relative_path.
+
+Theorem C01_absolute_path : forall D has_ns hcode rm rn rr steps c,
+  hash_ok hcode (all_nodes D) -> valid D c = true ->
+  exists l, sel D has_ns hcode rm rn rr (chain QAbsolute steps) c = Val l /\
+    (forall n, In n (nodes_of l) -> valid D n = true) /\
+    (forall n, In n (nodes_of l) <-> abs_path_den D has_ns steps n).
+Proof. exact chain_den_abs. Qed.
+Print Assumptions C01_absolute_path.
+
+(* the BUILDER: the query it produces for the parse tree of a predicate-free
+   path — with the //name shortcut, descendant-over-descendant (SmartDesc) and
+   cached-child rewrites — selects exactly the denotation, from every context node *)
+Theorem C01_built_query : forall D has_ns hcode rm rn rr re_ok abs steps a,
+  hash_ok hcode (all_nodes D) -> List.length steps < max_build_depth ->
+  to_ast abs steps = Some a ->
+  exists q pr fi, process re_ok 0 a fl_none fi_nil = Ok (q, pr, fi) /\ q <> QNil /\
+    selects_path D has_ns hcode rm rn rr q abs steps.
+Proof. exact build_path_den. Qed.
+Print Assumptions C01_built_query.
+
+(* Compile: if the text parses to a path-shaped tree, Compile succeeds and the
+   compiled query selects exactly the denotation *)
+Theorem C01_compiled_path : forall D has_ns hcode rm rn rr re_ok fuel text ns abs steps a,
+  hash_ok hcode (all_nodes D) -> List.length steps < max_build_depth -> text <> ""%string ->
+  parse_fuel fuel text ns = Ok a -> rpath_ast abs (rev steps) (Some a) ->
+  exists q, compile_fuel re_ok fuel text ns = Ok q /\ selects_path D has_ns hcode rm rn rr q abs steps.
+Proof. exact compile_path_den. Qed.
+Print Assumptions C01_compiled_path.
 
 (* the //a//b optimisation (descendant-over-descendant yields top-most matches
    only): the node set after the next descendant step is unchanged *)
